@@ -151,7 +151,7 @@ pub fn describe_history(m: &HistModel, hist: &[u16]) -> Value {
 }
 
 /// shared reporting for the E-HIST properties
-pub fn report(prop: &str, tier: &str, runs: Vec<Run>, rule: &str, required_guards: &[&str], t0: Instant, probe_mode: bool) -> i32 {
+pub fn report(prop: &str, tier: &str, runs: Vec<Run>, rule: &str, required_guards: &[&str], t0: Instant, probe_mode: bool, extra_check: Option<&dyn Fn() -> (Vec<Issue>, u64)>) -> i32 {
     let known = Known::load();
     let mut machinery_fail = false;
     let mut nviol = 0u64;
@@ -226,6 +226,31 @@ pub fn report(prop: &str, tier: &str, runs: Vec<Run>, rule: &str, required_guard
             machinery_fail = true;
         }
     }
+    // additional explicit enumeration attached to this property (e.g. "never evicted" at scale)
+    let mut extra_evals = 0u64;
+    if let Some(f) = extra_check {
+        let (is, n) = f();
+        extra_evals = n;
+        for i in is {
+            if let Some(what) = known.lookup(prop, &i.sig) {
+                println!("KNOWN-FINDING: property={} {} [signature {}]", prop, what, i.sig);
+                continue;
+            }
+            nviol += 1;
+            viol_sigs.push(json!({"signature": i.sig, "occurrences": 1, "configuration": "scale"}));
+            let again = f().0;
+            if !again.iter().any(|j| j.sig == i.sig) {
+                eprintln!("MACHINERY: violation {} did not reproduce", i.sig);
+                machinery_fail = true;
+                continue;
+            }
+            let path = format!("{}/{}_{}.json", dir, tier, sanitize(&i.sig));
+            let _ = std::fs::write(&path, serde_json::to_string_pretty(&json!({"property": prop, "tier": tier, "signature": i.sig, "detail": i.detail})).unwrap());
+            confirmed += 1;
+            println!("VIOLATION property={} replay={}", prop, path);
+            println!("  signature: {}\n  detail: {}", i.sig, i.detail);
+        }
+    }
     for g in required_guards {
         if guards.get(g).cloned().unwrap_or(0) == 0 {
             eprintln!("MACHINERY: vacuity guard '{}' was never hit in property {}", g, prop);
@@ -237,7 +262,7 @@ pub fn report(prop: &str, tier: &str, runs: Vec<Run>, rule: &str, required_guard
         "property_id": prop, "tier": tier, "seed": seed(), "level": "model_checking",
         "coverage": {
             "states": states, "transitions": transitions.max(1), "traces_validated_against_impl": transitions,
-            "evaluations": transitions + probes, "distinct_nontrivial": states,
+            "evaluations": transitions + probes + extra_evals, "scale_evaluations": extra_evals, "distinct_nontrivial": states,
             "rule": rule, "samples": samples, "exhaustive": !machinery_fail,
             "explanation": "states = unique (real cache contents of every instance, reference cache) pairs reached; every transition executes the real parse_bytes on a parser rebuilt from the state and on a parser that replayed the whole history",
             "configurations": runs_json, "real_parse_bytes_calls": parse_calls, "per_state_probes": probes,
@@ -279,6 +304,7 @@ pub fn configs(tier: &str, probe: impl Fn() -> Option<Box<dyn Fn(&HistModel, &St
 
 pub fn run(tier: &str) -> i32 {
     let t0 = Instant::now();
+    let thorough = tier == "thorough";
     let runs = configs(tier, || None);
     report(
         "C06",
@@ -288,7 +314,54 @@ pub fn run(tier: &str) -> i32 {
         &["redefinition-then-data", "data-under-template-learned-two-calls-ago", "disallowed-template-offered", "same-id-live-in-both-protocols-with-different-layouts", "kind-change-then-data", "composite-buffer-compared-with-split-delivery", "other-instance-non-empty-while-acting"],
         t0,
         false,
+        Some(&|| capacity_check(thorough)),
     )
+}
+
+/// "templates are never evicted", at scale: N distinct ids are defined (several per packet / per message), then
+/// data for the first, a middle and the last id must still decode per the reference, the cache must hold exactly N
+/// definitions of that protocol and none of the other, and a second round re-defining every id must keep N.
+pub fn capacity_check(thorough: bool) -> (Vec<Issue>, u64) {
+    use crate::cform::*;
+    use crate::refmodel::*;
+    let mut issues = vec![];
+    let mut evals = 0u64;
+    let sizes: Vec<usize> = if thorough { vec![1, 2, 17, 64, 65, 255, 256, 257, 1000, 1024, 1025, 4096, 10000, 32768, 65279] } else { vec![1, 17, 64, 65, 256, 257, 1024, 1025, 4097, 20000] };
+    for proto in [9u16, 10] {
+        for &n in &sizes {
+            evals += 1;
+            let mut p = netflow_parser::NetflowParser::default();
+            let mut rc = RefCache::default();
+            let ids: Vec<u16> = (0..n).map(|k| (256 + k) as u16).collect();
+            for round in 0..2 {
+                for chunk in ids.chunks(700) {
+                    let pkt = if proto == 9 {
+                        v9p(vec![V9Set::Tpl(chunk.iter().map(|id| V9Tpl { id: *id, fields: layout(round) }).collect(), 0)])
+                    } else {
+                        ipm(chunk.iter().map(|id| ip_t(*id, round)).collect())
+                    };
+                    p.parse_bytes(&pkt);
+                    let _ = ref_buffer(&pkt, &mut rc);
+                }
+                let s = snap(&p);
+                let (mine, other) = if proto == 9 { (s.v9_t.len() + s.v9_o.len(), s.ipfix_t.len() + s.ipfix_o.len()) } else { (s.ipfix_t.len() + s.ipfix_o.len(), s.v9_t.len() + s.v9_o.len()) };
+                if mine != n || other != 0 {
+                    issues.push(issue(format!("scale/{}-cache-size", if proto == 9 { "v9" } else { "ipfix" }), format!("after defining {} distinct ids (round {}) the cache holds {} definitions of this protocol and {} of the other", n, round, mine, other)));
+                }
+                for id in [ids[0], ids[n / 2], ids[n - 1]] {
+                    let d = if proto == 9 { v9p(vec![V9Set::Data(id, body12(id as usize % 9))]) } else { ipm(vec![IpfixSet::Data(id, body12(id as usize % 9))]) };
+                    let got: Vec<CPkt> = p.parse_bytes(&d).iter().map(c_pkt).collect();
+                    let exp = ref_buffer(&d, &mut rc).expect("capacity probe outside reference domain");
+                    if got != exp {
+                        issues.push(issue(format!("scale/{}-data-after-many-templates", if proto == 9 { "v9" } else { "ipfix" }), format!("with {} ids defined (round {}), data for id {} does not decode per its template", n, round, id)));
+                    }
+                }
+            }
+        }
+    }
+    issues.sort_by(|a, b| a.sig.cmp(&b.sig));
+    issues.dedup_by(|a, b| a.sig == b.sig);
+    (issues, evals)
 }
 
 /// `nfmc replay` for the E-HIST properties: rebuild the configuration's model (no search), replay the recorded
